@@ -16,4 +16,33 @@ ImplOrder3(i0, i1, i2, v) ==
     CASE v = 0 -> FreeOfLists(<<FreeOfLists(<<i0, i1>>), i2>>)
       [] v = 1 -> FreeOfLists(<<i1, FreeOfLists(<<i0, i2>>)>>)
       [] v = 2 -> FreeOfLists(<<i0, FreeOfLists(<<i1, i2>>)>>)
+
+-----------------------------------------------------------------------------------------------------
+(* The cost model that picks the variant (meta/opmin_meta.h).  E maps a label to its extent.            *)
+(*   pair_flop_cost(I, J)   = prod(extents of I) * prod(extents of the labels of J that are not in I)    *)
+(*                          = product of the extents over the union of the two label sets               *)
+(*   triplet_flop_cost      : c01 = pair(I0,I1) + pair(Free(I0 o I1), I2),  c02, c12 alike,              *)
+(*                            c012 = one loop nest over all labels;  which_variant = meta_argmin of the   *)
+(*                            four, whose tie-breaking is NOT "first minimum": meta_argmin<m,n> = (m<n)?0:1 *)
+(*                            (a tie between the first two goes to the SECOND), and a later group wins     *)
+(*                            only if it is strictly smaller than the minimum of the earlier ones.          *)
+SetOfSeq(s) == {s[i] : i \in DOMAIN s}
+ProdOver(S, E) == FoldLeft(LAMBDA acc, x : acc * E[x], 1, SetToSeq(S))
+PairCost(a, b, E) == ProdOver(SetOfSeq(a) \cup SetOfSeq(b), E)
+TripletCosts(i0, i1, i2, E) ==
+    << PairCost(i0, i1, E) + PairCost(FreeOfLists(<<i0, i1>>), i2, E),
+       PairCost(i0, i2, E) + PairCost(FreeOfLists(<<i0, i2>>), i1, E),
+       PairCost(i1, i2, E) + PairCost(FreeOfLists(<<i1, i2>>), i0, E),
+       ProdOver(SetOfSeq(i0) \cup SetOfSeq(i1) \cup SetOfSeq(i2), E) >>
+Min2(m, n) == IF m < n THEN m ELSE n
+ArgMin2(m, n) == IF m < n THEN 0 ELSE 1
+ArgMin3(m, n, r) == LET p == Min2(m, n) IN IF p <= Min2(p, r) THEN ArgMin2(m, n) ELSE ArgMin2(p, r) + 1
+ArgMin4(m, n, r, q) == LET p == Min2(m, n) IN IF p <= Min2(p, Min2(r, q)) THEN ArgMin2(m, n) ELSE ArgMin3(p, r, q) + 1
+CostVariant(i0, i1, i2, E) == LET c == TripletCosts(i0, i1, i2, E) IN ArgMin4(c[1], c[2], c[3], c[4])
+\* extents of the labels, read off the operands
+ExtentMap(labels, shapes) ==
+    LET all == UNION {SetOfSeq(labels[o]) : o \in DOMAIN labels}
+    IN [x \in all |-> LET o == CHOOSE o \in DOMAIN labels : x \in SetOfSeq(labels[o])
+                           a == CHOOSE a \in DOMAIN labels[o] : labels[o][a] = x
+                       IN shapes[o][a]]
 =======================================================================================
